@@ -58,13 +58,24 @@ def codes_of(out):
     return sorted(set(p.split(',')[1] for p in out.split('|')[1:] if p.startswith('E,')))
 
 
+_code_sets = []
+
+
+def all_code_sets():
+    """names of the external code sets of codes.xml"""
+    if not _code_sets:
+        import pyx12.codes
+        _code_sets.extend(sorted(pyx12.codes.ExternalCodes(None, None).codes.keys()))
+    return _code_sets
+
+
 def run(ctx, report):
     rng = random.Random(ctx['seed'])
     mr = core.ModelRunner()
     thorough = ctx['tier'] == 'thorough'
     names = [n for n in mapsrc.map_names() if n != '841.4010.XXXC.xml'] + ['x12.control.00401.xml', 'x12.control.00501.xml']
     if not thorough:
-        names = mapsrc.quick_subset(names) + ['x12.control.00501.xml']
+        names = mapsrc.quick_subset(names) + ['x12.control.00501.xml', '277.5010.X214.xml']
     report.rule = ('every element and component node of the maps (quick: 7 maps, a sample of nodes; thorough: all maps, all nodes) x a '
                    'value catalogue spanning each boundary (lengths min-1..max+1, every inline code, members/non-members of the '
                    'external set, each character class, dates/times, signs and points, trailing blanks, control characters, absent) '
@@ -87,6 +98,13 @@ def run(ctx, report):
                 d2, m2 = mapser.impl_mapdump(name, exclude=ex, charset=charset)
                 if m2 is not None:
                     run_settings.append((ex, m2))
+                # excluding ONE set must not exempt another whose name is a part of it (claim_status / claim_status_cat), nor
+                # one that merely shares a prefix: single-set exclusions of every set NOT used here whose name contains a used one,
+                # and of the first used set alone
+                for ex1 in sorted(set([b for b in all_code_sets() for a in ext_sets if a != b and a in b] + ext_sets[:1])):
+                    d3, m3 = mapser.impl_mapdump(name, exclude=ex1, charset=charset)
+                    if m3 is not None and ex1 != ex:
+                        run_settings.append((ex1, m3))
             for (excl, mm) in run_settings:
                 args = [name, excl, charset]
                 cases = []
